@@ -33,7 +33,7 @@ ASSUMPTIONS = ['M-verify (sim/model.py) defines the offending set; files that th
 
 
 def generate(rng, tier, idx):
-    g = GT.gen_tree(rng, {'top': 'Manifest', 'max_dirs': 7, 'max_files': 12, 'p_conflict': 0.05, 'p_dup': 0.08, 'p_wrong_dup': 0.2, 'p_style': 0.12,
+    g = GT.gen_tree(rng, {'top': 'Manifest', 'max_dirs': 7, 'max_files': 12, 'p_conflict': 0.05, 'p_dup': 0.08, 'p_wrong_dup': 0.2, 'p_style': 0.12, 'p_listed_hidden': 0.5,
                           'p_second_manifest_ref': 0.15, 'p_second_manifest_ref_wrong': 0.4})
     info = g['info']
     nm = rng.choice([1, 2, 2, 3, 3, 4, 5, 6, 8])
